@@ -32,7 +32,7 @@ var watchRoot = scratchRoot("/tmp/cdi-verif-watch")
 
 // file-system operations of a history (each applies to the single configured directory D)
 var watchOps = []string{"writeInPlace", "writeViaTemp", "rewrite", "unlink", "renameAway", "moveIn", "linkIn", "creatEmpty",
-	"tempFile", "rmdir", "mkdir", "lock", "unlock", "pause", "moveInOld", "linkInOld"}
+	"tempFile", "rmdir", "mkdir", "lock", "unlock", "pause", "moveInOld", "linkInOld", "writeBad"}
 
 func specBytes(tag string, n int) []byte { return specBytesOf("vendor.com/class", tag, n) }
 
@@ -52,6 +52,8 @@ func (watchStream) Generate(rng *rand.Rand, tier string, emit func(Case)) {
 	}
 	// fixed histories: the two defects found on the pinned tree, and the basic ones
 	fixed := [][]string{
+		// a file in error is repaired by renaming it away / removing it / rewriting it: its error entry goes away
+		{"writeBad", "pause", "renameAway"}, {"writeBad", "pause", "unlink"}, {"writeBad", "pause", "rewrite"}, {"writeInPlace", "pause", "writeBad"},
 		{"moveIn"}, {"linkIn"}, {"writeViaTemp"}, {"moveInOld"}, {"linkInOld"}, {"writeInPlace", "pause", "moveInOld"}, {"writeInPlace", "pause", "unlink", "pause", "linkInOld"}, {"writeInPlace", "rewrite", "unlink"},
 		{"lock", "rmdir", "mkdir", "writeInPlace", "unlock", "pause", "rmdir"},
 		{"rmdir", "pause", "mkdir", "moveIn"}, {"writeInPlace", "rmdir", "mkdir", "writeViaTemp"},
@@ -182,6 +184,11 @@ func doFsOpKind(kind, op, d, outside string, counter *int) bool {
 			return false
 		}
 		return os.WriteFile(target, specBytes(tag, 1+*counter%3), 0o644) == nil
+	case "writeBad":
+		if !dirExists() {
+			return false
+		}
+		return os.WriteFile(target, []byte("{ this is : not [ a spec "+tag), 0o644) == nil
 	case "rewrite":
 		if !fileExists() {
 			return false
